@@ -37,6 +37,8 @@ def jsonable(v, depth=0):
             import hashlib
             return {'bytes_len': len(v), 'sha256': hashlib.sha256(bytes(v)).hexdigest()}
         return {'bytes': list(v)}
+    if type(v).__name__ == 'SStr':
+        return ''.join(chr(x) for x in v.items) if all(not is_sym(x) for x in v.items) else {'text': [jsonable(x) for x in v.items]}
     if isinstance(v, V.SBytes):
         return {'bytes': [jsonable(x) for x in v.items]}
     if isinstance(v, (list, tuple)):
